@@ -13,9 +13,9 @@ STACK_IDS = [s.id for s in pool.STACKS]
 HIST = {
     'C12': dict(profile='ownership', groups=['core', 'io', 'conv'], compile_groups=('core',),
                 builds=[('rel-plain', 160000, 6000000), ('dbg-asan', 30000, 1000000), ('rel-asan', 30000, 1000000)]),
-    'C05': dict(profile='conversion', groups=['core', 'io', 'conv'], compile_groups=('conv',),
+    'C05': dict(profile='conversion', groups=['core', 'io', 'conv'], compile_groups=('conv',), sweep='convsweep',
                 builds=[('rel-plain', 120000, 5000000), ('dbg-asan', 30000, 1000000)]),
-    'C06': dict(profile='roundtrip', groups=['core', 'io', 'conv'], compile_groups=('io',),
+    'C06': dict(profile='roundtrip', groups=['core', 'io', 'conv'], compile_groups=('io',), sweep='rtsweep',
                 builds=[('rel-plain', 120000, 5000000), ('dbg-asan', 30000, 1000000)]),
     'C07': dict(profile='portability', groups=['core', 'io', 'conv'], compile_groups=(),
                 builds=[('rel-plain', 120000, 5000000), ('dbg-asan', 30000, 1000000)]),
@@ -98,6 +98,40 @@ def check(prop, tier, seed):
                 else:
                     key = r['key']
                 viol_first.setdefault(key, (b, r))
+    # systematic sweep: every extent vector up to a bound for every conversion pair (C05) /
+    # every serialisable stack (C06), values still seeded
+    sweep_info = None
+    if cfg.get('sweep'):
+        sargs = ['--property', prop, '--profile', cfg['sweep'], '--seed', str(seed), '--tier', tier, '--disable', disabled]
+        for b, _, _ in cfg['builds']:
+            res = run.run_once(exes[b], sargs + ['--count-sweep'])
+            n = 0
+            for line in res['out']:
+                if line.startswith('SWEEP '):
+                    n = int(line.split()[1])
+            reps = 4 if thorough else 1  # each repetition draws new values for the same structures
+            t0 = time.time()
+            results, stats = run.run_batch(exes[b], sargs, n * reps, workers_for(b))
+            dt = time.time() - t0
+            per_build[b + ' sweep'] = dict(runs=len(results), wall_s=round(dt, 2))
+            total_runs += len(results)
+            sweep_info = dict(profile=cfg['sweep'], plans_per_pass=n, passes=reps,
+                              bounds='extents 1..9 (N=1), 1..6 (N=2), 1..4 (N=3), 1..3 (N=4), all combinations')
+            for k, v in stats.items():
+                all_stats[k] = all_stats.get(k, 0) + v
+            for r in results:
+                if r['ok']:
+                    if r['nontrivial']:
+                        cases.add(r['case'])
+                else:
+                    if r.get('death'):
+                        if checks.is_benign_death(r):
+                            continue
+                        key = checks.death_key(r, STACK_IDS)
+                    else:
+                        key = r['key']
+                    r = dict(r, sweep=True)
+                    viol_first.setdefault(key, (b, r))
     # memcheck pass (C15): the same program space under valgrind, uninitialised-value use is
     # something ASan cannot see
     vg_runs = 0
@@ -133,7 +167,7 @@ def check(prop, tier, seed):
                     viol_first[key] = (cfg['builds'][0][0], dict(run=i, seed=0, ok=False, death=False, key=key, op=-1,
                                                                   detail='observation logs differ between builds: %s' % d))
     # reproduce, minimise, write replay files
-    for key, (b, r) in sorted(viol_first.items()):
+    for key, (b, r) in checks.cap_keys(rep, viol_first):
         handle_violation(rep, prop, cfg, exes, disabled, seed, tier, key, b, r)
     golden = None
     if prop == 'C07':
@@ -178,6 +212,8 @@ def check(prop, tier, seed):
     )
     if golden is not None:
         rep.coverage['golden_files'] = golden
+    if sweep_info is not None:
+        rep.coverage['systematic_sweep'] = sweep_info
     zero = [k for k in ('self_copy_assign_nonempty', 'assign_into_moved_from') if prop == 'C12' and not probes.get(k)]
     if zero:
         rep.coverage['warnings'] = ['reach probe stayed at zero: ' + ', '.join(zero)]
@@ -191,8 +227,8 @@ def check(prop, tier, seed):
 
 def handle_violation(rep, prop, cfg, exes, disabled, seed, tier, key, b, r):
     exe = exes[b]
-    base_args = ['--property', prop, '--profile', cfg['profile'], '--seed', str(seed), '--tier', tier,
-                 '--disable', disabled]
+    base_args = ['--property', prop, '--profile', cfg['sweep'] if r.get('sweep') else cfg['profile'], '--seed', str(seed),
+                 '--tier', tier, '--disable', disabled]
     if key.startswith('build-diverge'):
         path = checks.replay_path(prop, key)
         res = run.run_once(exe, base_args + ['--emit-plan', str(r['run'])])
